@@ -138,6 +138,10 @@ func (h *handler) Handle(ctx context.Context, header *protocol.RequestHeader, re
 				if strings.TrimSpace(name) == "" {
 					continue
 				}
+				if !h.allowAutoCreate(principal, name) {
+					h.recordAuthzDeniedWithPrincipal(principal, acl.ActionProduce, acl.ResourceTopic, name)
+					continue
+				}
 				if err := h.ensureTopic(ctx, name, 0); err != nil {
 					return nil, fmt.Errorf("auto-create topic %s: %w", name, err)
 				}
@@ -735,6 +739,15 @@ func (h *handler) allowCluster(principal string, action acl.Action) bool {
 
 func (h *handler) allowAdmin(principal string) bool {
 	return h.allowCluster(principal, acl.ActionAdmin)
+}
+
+// allowAutoCreate reports whether principal may bring topic into being as a
+// side effect of a metadata request: it needs a right that would let it
+// auto-create the topic anyway (produce or fetch on the topic) or cluster admin.
+func (h *handler) allowAutoCreate(principal string, topic string) bool {
+	return h.allowTopic(principal, topic, acl.ActionProduce) ||
+		h.allowTopic(principal, topic, acl.ActionFetch) ||
+		h.allowAdmin(principal)
 }
 
 func topicsFromListOffsets(req *kmsg.ListOffsetsRequest) []string {
